@@ -6,12 +6,13 @@ Dispatcher of the `pkg` line protocol over the codec groups. A token no group cl
 import Dblib.Model.Codec.Common
 import Dblib.Model.Codec.Basic
 import Dblib.Model.Codec.Cursor
+import Dblib.Model.Codec.Fields
 
 namespace Dblib.Codec
 
 /-- the groups: (encLine, decLine) -/
 def groups : List ((String → List String → Option String) × (Nat → Option Bytes → Bytes → Option String)) :=
-  [(Basic.encLine, Basic.decLine), (Cursor.encLine, Cursor.decLine)]
+  [(Basic.encLine, Basic.decLine), (Cursor.encLine, Cursor.decLine), (Fields.encLine, Fields.decLine)]
 
 def firstSome {α : Type} : List (Option α) → Option α
   | [] => none
